@@ -52,6 +52,7 @@ pub struct Device {
     /// folder keys that must no longer open anything (C12)
     pub dead_keys: Vec<(String, VaultId, AccessKey)>,
     pub old_passwords: Vec<SecretString>,
+    pub cipher_flips: u32,
 }
 
 pub async fn make_target(root: &Path, backend: &str) -> Result<BackendTarget> {
@@ -131,6 +132,7 @@ impl Device {
             exp_alog_tail: Vec::new(),
             dead_keys: Vec::new(),
             old_passwords: Vec::new(),
+            cipher_flips: 0,
         })
     }
 
@@ -332,6 +334,13 @@ impl Device {
                         .await?;
                     self.dead_keys.push((f, fid, old));
                 }
+                "ChangeCipher" => {
+                    use sos_core::crypto::Cipher;
+                    self.cipher_flips += 1;
+                    let cipher = if self.cipher_flips % 2 == 1 { Cipher::XChaCha20Poly1305 } else { Cipher::AesGcm256 };
+                    let key: AccessKey = self.password.clone().into();
+                    self.account.change_cipher(&key, &cipher, None).await?;
+                }
                 "ChangeAccountPassword" => {
                     let (pw, _) = sos_password::diceware::generate_passphrase()?;
                     self.account.change_account_password(pw.clone()).await?;
@@ -472,7 +481,7 @@ impl Device {
         Ok(json!({
             "folders": folders.into_iter().collect::<Vec<_>>(),
             "name": name, "desc": desc, "flag": flag, "sec": sec,
-            "epoch": spec["epoch"], "aepoch": spec["aepoch"],
+            "epoch": spec["epoch"], "aepoch": spec["aepoch"], "cflips": spec["cflips"],
         }))
     }
 
@@ -540,6 +549,60 @@ impl Device {
         spec_to: &Value,
         problems: &mut Vec<String>,
     ) -> Result<()> {
+        if act == "ChangeCipher" {
+            use sos_core::crypto::{Cipher, Nonce};
+            use sos_core::{VaultCommit, VaultEntry};
+            let want = if self.cipher_flips % 2 == 1 { Cipher::XChaCha20Poly1305 } else { Cipher::AesGcm256 };
+            let nonce_ok = |n: &Nonce| matches!((n, want), (Nonce::Nonce12(_), Cipher::AesGcm256) | (Nonce::Nonce24(_), Cipher::XChaCha20Poly1305));
+            for (fname, id) in self.folders.clone() {
+                let folder = self.account.folder(&id).await?;
+                let (cipher, stale_vault) = {
+                    let ap = folder.access_point();
+                    let ap = ap.lock().await;
+                    let v = sos_vault::SecretAccess::vault(&*ap);
+                    let mut stale = 0;
+                    if let Some(m) = v.header().meta() {
+                        if !nonce_ok(&m.nonce) { stale += 1; }
+                    }
+                    for (_, VaultCommit(_, VaultEntry(a, b))) in v.iter() {
+                        if !nonce_ok(&a.nonce) { stale += 1; }
+                        if !nonce_ok(&b.nonce) { stale += 1; }
+                    }
+                    (*v.cipher(), stale)
+                };
+                if cipher != want {
+                    problems.push(format!("{}: after ChangeCipher folder {fname} still has cipher {cipher}", self.label));
+                }
+                if stale_vault > 0 {
+                    problems.push(format!("{}: after ChangeCipher the vault of folder {fname} holds {stale_vault} blobs of the old cipher", self.label));
+                }
+                let mut stale_log = 0;
+                {
+                    let log = folder.event_log();
+                    let log = log.read().await;
+                    let st = log.event_stream(false).await;
+                    pin_mut!(st);
+                    while let Some(r) = st.next().await {
+                        match r?.1 {
+                            WriteEvent::CreateSecret(_, VaultCommit(_, VaultEntry(a, b)))
+                            | WriteEvent::UpdateSecret(_, VaultCommit(_, VaultEntry(a, b))) => {
+                                if !nonce_ok(&a.nonce) || !nonce_ok(&b.nonce) { stale_log += 1; }
+                            }
+                            WriteEvent::SetVaultMeta(a) => { if !nonce_ok(&a.nonce) { stale_log += 1; } }
+                            _ => {}
+                        }
+                    }
+                }
+                if stale_log > 0 {
+                    problems.push(format!("{}: after ChangeCipher the event log of folder {fname} holds {stale_log} events encrypted with the old cipher", self.label));
+                }
+                let kinds = self.log_kinds(&id).await?;
+                let live = spec_to["sec"][&fname].as_object().map(|o| o.values().filter(|v| *v != "none").count()).unwrap_or(0);
+                if kinds.len() != 1 + live || kinds.first().map(|s| s.as_str()) != Some("CreateVault") {
+                    problems.push(format!("{}: after ChangeCipher the log of folder {fname} has {} events, expected 1 + {live}: {:?}", self.label, kinds.len(), kinds));
+                }
+            }
+        }
         if act == "Compact" || act == "ChangeFolderPassword" {
             let id = self.fid(f)?;
             let kinds = self.log_kinds(&id).await?;
@@ -593,7 +656,7 @@ impl Device {
         }
         // the data really is kept: a second handle that loads everything
         // from storage must serve what the specification says
-        if ["Compact", "ChangeFolderPassword", "ChangeAccountPassword"].contains(&act) {
+        if ["Compact", "ChangeFolderPassword", "ChangeAccountPassword", "ChangeCipher"].contains(&act) {
             let target = reopen_target(&self.root, self.label).await?;
             let mut fresh = LocalAccount::new_unauthenticated(self.account_id, target).await?;
             let key: AccessKey = self.password.clone().into();
@@ -1333,7 +1396,7 @@ pub async fn run_path(
                 "C12" => {
                     let mut v = Vec::new();
                     dev.check_c12(act, f, &step["to"], &mut v).await?;
-                    if ["Compact", "ChangeFolderPassword", "ChangeAccountPassword"].contains(&act) {
+                    if ["Compact", "ChangeFolderPassword", "ChangeAccountPassword", "ChangeCipher"].contains(&act) {
                         v.extend(problems);
                         dev.check_c02(&mut v).await?;
                     } else if !problems.is_empty() {
@@ -1387,5 +1450,52 @@ pub async fn run_path(
         let _ = std::fs::remove_dir_all(&dir);
     }
     let _ = (HashMap::<u8, u8>::new(), same_secret);
+    Ok(())
+}
+
+async fn cipher_dump(label: &str, dev: &Device, id: VaultId) -> Result<()> {
+    use sos_core::{VaultCommit, VaultEntry};
+    let account = &dev.account;
+    let folder = account.folder(&id).await?;
+    let ap = folder.access_point();
+    let ap = ap.lock().await;
+    let v = sos_vault::SecretAccess::vault(&*ap);
+    let vn: Vec<usize> = v.iter().map(|(_, VaultCommit(_, VaultEntry(a, _)))| a.nonce.as_ref().len()).collect();
+    println!("{label}: cipher={} vault nonce lens={vn:?}", v.cipher());
+    drop(ap);
+    let log = folder.event_log();
+    let log = log.read().await;
+    let st = log.event_stream(false).await;
+    pin_mut!(st);
+    while let Some(r) = st.next().await {
+        match r?.1 {
+            WriteEvent::CreateSecret(_, VaultCommit(_, VaultEntry(a, _))) => println!("  log CreateSecret nonce {}", a.nonce.as_ref().len()),
+            WriteEvent::UpdateSecret(_, VaultCommit(_, VaultEntry(a, _))) => println!("  log UpdateSecret nonce {}", a.nonce.as_ref().len()),
+            WriteEvent::CreateVault(buf) => {
+                let v: sos_vault::Vault = sos_core::decode(&buf).await?;
+                println!("  log CreateVault cipher {}", v.cipher());
+            }
+            other => println!("  log {:?}", sos_core::events::LogEvent::event_kind(&other)),
+        }
+    }
+    Ok(())
+}
+
+/// Diagnostic: what change_cipher leaves in a folder's vault and log.
+pub async fn cipher_probe(scratch: &Path) -> Result<()> {
+    use sos_core::crypto::Cipher;
+    let dir = scratch.join("cipher_probe");
+    let _ = std::fs::remove_dir_all(&dir);
+    let mut dev = Device::new(&dir, "fs").await?;
+    dev.exec("CreateSecret", &json!(["d", "s1", "v1"])).await?;
+    dev.exec("UpdateSecret", &json!(["d", "s1", "v2"])).await?;
+    let id = *dev.folders.get("d").unwrap();
+    cipher_dump("before", &dev, id).await?;
+    let key: AccessKey = dev.password.clone().into();
+    let conv = dev.account.change_cipher(&key, &Cipher::XChaCha20Poly1305, None).await?;
+    println!("conversion folders={} identity={}", conv.folders.len(), conv.identity.is_some());
+    cipher_dump("after", &dev, id).await?;
+    dev.exec("SignOutIn", &json!([])).await?;
+    cipher_dump("after reload", &dev, id).await?;
     Ok(())
 }
